@@ -751,7 +751,11 @@ func runSequentialShard(r *lib.Run, shard, n int) {
 		check := func() bool {
 			// 1. the registry lock must be free: nothing else runs
 			if !proxy.VerifC11RegistryLockFree(w.px) {
-				r.Violation(lockSig, "after "+lastStep+" returned, the registry lock (Proxy.muP) is still held although no goroutine is inside the registry: every later login, lookup and teardown blocks forever",
+				sig := lockSig
+				if lastStep != "register-false" {
+					sig = "registry-lock-not-free-after-" + lastStep
+				}
+				r.Violation(sig, "after "+lastStep+" returned, the registry lock (Proxy.muP) is still held although no goroutine is inside the registry: every later login, lookup and teardown blocks forever",
 					map[string]any{"case": specString(c), "mode": modeName[c.Mode], "trace": trace})
 				proxy.VerifC11ReleaseLeakedRegistryLock(w.px)
 				return false
@@ -897,6 +901,8 @@ func fmtFinding(f *finding) any {
 
 var lockFrame = regexp.MustCompile(`sync\.\(\*RWMutex\)\.R?Lock\(.*\n.*\n(?:sync\.[^\n]*\n.*\n)*go\.minekube\.com/gate/pkg/edition/java/proxy\.\(\*Proxy\)\.`)
 
+var parkedHdr = regexp.MustCompile(`\[sync\.RWMutex\.R?Lock(,|\])`)
+
 func runConcurrent(r *lib.Run) {
 	t0 := time.Now()
 	defer func() { r.Set("conc_wall_s", time.Since(t0).Seconds()) }()
@@ -1019,7 +1025,10 @@ func runConcurrent(r *lib.Run) {
 					dump := lib.Goroutines()
 					parked := 0
 					for _, b := range lib.GoroutineBlocks(dump) {
-						if strings.Contains(b, "/verifh/c11.runConcurrent") && lockFrame.MatchString(b) {
+						// header must carry the blocked-on-RWMutex wait reason (a goroutine that was
+						// just woken is "[runnable]" although its stack still shows the Lock frames)
+						hdr, _, _ := strings.Cut(b, "\n")
+						if strings.Contains(b, "/verifh/c11.runConcurrent") && parkedHdr.MatchString(hdr) && lockFrame.MatchString(b) {
 							parked++
 						}
 					}
@@ -1028,7 +1037,13 @@ func runConcurrent(r *lib.Run) {
 						w.mu.Lock()
 						ops := describe(w.ops)
 						w.mu.Unlock()
-						r.Violation(lockSig, fmt.Sprintf("the registry lock (Proxy.muP) is held while all %d unfinished goroutines are parked waiting for it inside registry functions: a registerConnection that returned false left it locked", un),
+						sig := "registry-lock-held-by-no-goroutine"
+						for _, s := range w.sess {
+							if w.spec.Mode != modeKick && s.regRes.Load() == 0 {
+								sig = lockSig
+							}
+						}
+						r.Violation(sig, fmt.Sprintf("the registry lock (Proxy.muP) is held while all %d unfinished goroutines are parked waiting for it inside registry functions: a registerConnection that returned false left it locked", un),
 							map[string]any{"case": specString(c), "mode": modeName[c.Mode], "ops_so_far": ops, "parked_goroutines": parked})
 						proxy.VerifC11ReleaseLeakedRegistryLock(w.px) // let the parked goroutines be collected
 						still = 0
